@@ -97,7 +97,14 @@ def f_origin_substring(s, r):
 def f_origin_list_absent(s, r): s.exp_origin = ["https://a.example", "https://b.example"]; s.origin = r.choice(["https://c.example", "https://a.example https://b.example", "https://a.exampl"])
 def f_origin_case(s, r): _keep_expected(s); s.origin = s.origin.upper() if s.origin.upper() != s.origin else s.origin.lower()
 def f_token_binding(s, r): s.token_binding = {"status": r.choice(["not-supported", "unknown", "", "PRESENT"])}
-def f_rp_other(s, r): s.sign_rp_id = r.choice(["evil.example", "example.co", "example.com.", "Example.com"])
+RP_ALIASES = [("example.com", "evil.example"), ("example.com", "example.co"), ("example.com", "example.com."), ("example.com", "Example.com"),
+              ("Example.COM", "example.com"), ("login.Example.com", "login.example.com"), ("example.com ", "example.com"), (" example.com", "example.com"),
+              ("bücher.example", "xn--bcher-kva.example"), ("xn--bcher-kva.example", "bücher.example"), ("BÜCHER.example", "bücher.example"),
+              ("straße.example", "strasse.example"), ("ｅxample.com", "example.com"), ("example.com", "example.com\u200b")]
+def f_rp_other(s, r):
+    # (RP ID the relying party expects, RP ID the authenticator hashed): different strings, however similar - no case folding, trimming, IDNA or
+    # Unicode normalisation makes them "the same RP ID"
+    s.rp_id, s.sign_rp_id = r.choice(RP_ALIASES)
 def f_up_clear(s, r): s.flags &= ~0x01
 def f_uv_clear(s, r): s.require_uv = True; s.flags &= ~0x04
 def f_id_mismatch(s, r):
